@@ -133,10 +133,11 @@ def _assigned(fn):
 
 
 class Inliner:
-    def __init__(self, analysis, module, fnode):
+    def __init__(self, analysis, module, fnode, keep=()):
         self.a = analysis
         self.m = module
         self.orig = fnode
+        self.keep = set(keep)
         self.cls = None
         p = getattr(fnode, '_parent', None)
         if isinstance(p, ast.ClassDef):
@@ -145,6 +146,8 @@ class Inliner:
     # -- callee resolution -------------------------------------------------
     def _callee(self, call, root):
         f = call.func
+        if (isinstance(f, ast.Name) and f.id in self.keep) or (isinstance(f, ast.Attribute) and f.attr in self.keep):
+            return None, False
         if isinstance(f, ast.Name):
             # nested closure of the analysed function
             for n in ast.walk(root):
@@ -410,8 +413,8 @@ def _link(root, module, parent, qual):
     walk(root, qual, qual)
 
 
-def inlined(analysis, module, fnode, depth=3):
-    key = ('inlined', module.name, fnode._qual)
+def inlined(analysis, module, fnode, depth=3, keep=()):
+    key = ('inlined', module.name, fnode._qual, tuple(sorted(keep)))
     if key not in analysis.cache:
-        analysis.cache[key] = Inliner(analysis, module, fnode).run(depth)
+        analysis.cache[key] = Inliner(analysis, module, fnode, keep).run(depth)
     return analysis.cache[key]
